@@ -34,7 +34,7 @@ theorem pickMin_assoc (a b c : Int × Int) : pickMin (pickMin a b) c = pickMin a
 theorem pickMax_assoc (a b c : Int × Int) : pickMax (pickMax a b) c = pickMax a (pickMax b c) := by
   unfold pickMax; grind
 theorem pickFirst_assoc (a b c : Int × Int) : pickFirst ty (pickFirst ty a b) c = pickFirst ty a (pickFirst ty b c) := by
-  unfold pickFirst; split <;> grind
+  unfold pickFirst; grind
 theorem pickLast_assoc (a b c : Int × Int) : pickLast (pickLast a b) c = pickLast a (pickLast b c) := by
   unfold pickLast; grind
 theorem pickMin_comm (a b : Int × Int) : pickMin a b = pickMin b a := by
@@ -42,7 +42,7 @@ theorem pickMin_comm (a b : Int × Int) : pickMin a b = pickMin b a := by
 theorem pickMax_comm (a b : Int × Int) : pickMax a b = pickMax b a := by
   unfold pickMax; grind
 theorem pickFirst_comm (a b : Int × Int) : pickFirst ty a b = pickFirst ty b a := by
-  unfold pickFirst; split <;> grind
+  unfold pickFirst; grind
 theorem pickLast_comm (a b : Int × Int) : pickLast a b = pickLast b a := by
   unfold pickLast; grind
 
